@@ -14,7 +14,7 @@ func init() {
 		ID:    "R19.1",
 		Title: "URI snapshots are copy-on-write",
 		Text: "In package d2 every write to a serviceUris.uris map (index assignment, delete) has as base a variable that, on every path to the write, was last assigned in the same function from serviceUris.copy() or a " +
-			"composite literal; copy() allocates a new map with make and copies every entry; no function stores into a Uri's maps except Uri.UnmarshalJSON on its receiver.",
+			"composite literal; copy() allocates a new map with make and copies every entry; no function stores into a Uri's maps, or through a *Uri at all, except Uri.UnmarshalJSON on its receiver.",
 		Props: []string{"C19", "C17"},
 		Floor: map[string]int{"v2": 5, "root": 5},
 		Run:   runR191,
@@ -206,6 +206,27 @@ func runR191(c *core.Ctx) {
 			}
 			for _, l := range as.Lhs {
 				target := core.Unparen(l)
+				// whole-value or field store through a *Uri (`*existing = *uri`, `u.Weights = m`)
+				var through ast.Expr
+				switch t := target.(type) {
+				case *ast.StarExpr:
+					through = t.X
+				case *ast.SelectorExpr:
+					if fv, ok := core.ObjOf(inf, t).(*types.Var); ok && fv.IsField() {
+						through = t.X
+					}
+				}
+				if through != nil {
+					if pt, ok := inf.Types[through].Type.(*types.Pointer); ok {
+						if nn := namedOf(pt.Elem()); nn != nil && nn.Obj() == uriT {
+							uriWrites++
+							if core.DeclName(fd) != "(*Uri).UnmarshalJSON" || core.ObjOf(inf, through) != recvObj(inf, fd) {
+								badUri++
+								c.Bad(rel, core.DeclName(fd), "store through a *Uri outside its decoder", l.Pos(), "announced Uri values are shared by every snapshot: "+core.ExprString(l)+" changes snapshots handed out earlier")
+							}
+						}
+					}
+				}
 				for {
 					ix, ok := target.(*ast.IndexExpr)
 					if !ok {
